@@ -7,7 +7,7 @@ import common
 def main():
     chk = common.Check('C14')
     import fmtcheck_common as C
-    proved = chk.prove('I18n.Props.C14', generated=('cfmt', 'pyfmt', 'tagsites', 'intexpr', 'grammar', 'fmtcheck', 'fmtargs'), extra_targets=())
+    proved = chk.prove('I18n.Props.C14', generated=('cfmt', 'pyfmt', 'tagsites', 'intexpr', 'grammar', 'fmtcheck', 'fmtargs', 'fmtmsg'), extra_targets=())
     # the tie: check_args x4 + get_last_integer_conversion regenerated from the current source and proved equal to the model (Props/C14Tie.lean)
     tie_ok = common.prove_tie(chk, 'I18n.Props.C14Tie', ('fmtargs',),
                               'the check_args / get_last_integer_conversion regenerated from the current lib/check/msgformat/*.py and lib/strformat/c.py are no '
@@ -15,6 +15,10 @@ def main():
     problems = ' '.join(chk.lean.problems)
     driver_ok = os.path.exists(common.driver_path()) and not any('untranslatable' in s for s in chk.lean.translation.values()) \
         and 'Driver' not in problems and 'I18n.Model' not in problems and 'I18n.Spec' not in problems
+    # second part of the tie: check_message itself regenerated from lib/check/msgformat/__init__.py and proved equal to checkMessage (Props/C14MsgTie.lean)
+    msg_tie_ok = common.prove_tie(chk, 'I18n.Props.C14MsgTie', ('fmtmsg',),
+                                  'check_message regenerated from the current lib/check/msgformat/__init__.py is no longer proved equal to FmtCheck.checkMessage '
+                                  '(generated_check_message_eq_model, generated_msg_check_formats_eq_model and their corollaries)') and tie_ok
     C.H.ready()
     rng = chk.rng
     boost = 3 if chk.broken else 1
@@ -70,6 +74,10 @@ def main():
             chk.stream('fmtcheck-unit-generated', g(lines), outs)
             chk.stream('fmtcheck-unit-strings-generated', g(slines), souts)
             chk.stream('fmtcheck-lastint-generated', g(ll), lo)
+        if msg_tie_ok:      # … and through the regenerated check_message over the regenerated check_args (driver ops mrun / mruns)
+            gm = lambda ls: [l.replace('fmtcheck runs ', 'fmtcheck mruns ', 1).replace('fmtcheck run ', 'fmtcheck mrun ', 1) for l in ls]
+            chk.stream('fmtcheck-unit-generated-msg', gm(lines), outs)
+            chk.stream('fmtcheck-unit-strings-generated-msg', gm(slines), souts)
     else:
         chk.broken.append({'kind': 'correspondence', 'stream': 'fmtcheck-*', 'problem': 'driver could not be rebuilt from the regenerated model'})
     chk.note_cases({(c['primary'], c['msgid']['text'], c['msgstr']['text'], tuple(sorted((i, s['text']) for i, s in c['msgstr_plural'].items())))
@@ -100,6 +108,8 @@ def main():
             chk.stream('fmtcheck-e2e-strings', slines, souts)
             if tie_ok:
                 chk.stream('fmtcheck-e2e-generated', g(lines), outs)
+            if msg_tie_ok:
+                chk.stream('fmtcheck-e2e-generated-msg', gm(lines), outs)
     finally:
         shutil.rmtree(work, ignore_errors=True)
 
